@@ -23,7 +23,30 @@ type FnResult struct {
 }
 
 func (e *Engine) VerifyFunction(fn *ssa.Function, c *Contract, panics bool, props map[string]bool) (res *FnResult) {
+	return e.VerifyFunctionAs(fn, c, panics, props, "")
+}
+
+// VerifyFunctionAs: with ifaceKey != "" the body is checked against the interface method contract ifaceKey
+// (refinement); loop invariants still come from the function's own contract c.
+func (e *Engine) VerifyFunctionAs(fn *ssa.Function, c *Contract, panics bool, props map[string]bool, ifaceKey string) (res *FnResult) {
 	res = &FnResult{Func: e.relName(fn), Contract: c}
+	own := c
+	if ifaceKey != "" {
+		ic := e.specs.Ifaces[ifaceKey]
+		if ic == nil {
+			res.Err = "contract: unknown interface contract " + ifaceKey
+			return res
+		}
+		res.Func += " as " + shortName(ifaceKey)
+		// combined view: pre/post/modifies/lets of the interface, loops and axiom uses of the implementation
+		cc := *ic
+		cc.Loops = map[int]*LoopSpec{}
+		if own != nil {
+			cc.Loops = own.Loops
+			cc.Uses = append(append([]*Expr{}, ic.Uses...), own.Uses...)
+		}
+		c = &cc
+	}
 	rt := &root{e: e, fn: fn, c: c, counters: map[string]int{}, panics: panics, props: props, notes: map[string]bool{}, lateGhost: map[string]bool{}}
 	defer func() {
 		if x := recover(); x != nil {
@@ -48,15 +71,31 @@ func (e *Engine) VerifyFunction(fn *ssa.Function, c *Contract, panics bool, prop
 	}()
 	e.initHeap = map[string]*Term{}
 	r := &FnRun{root: rt, e: e, fn: fn, c: c, vals: map[ssa.Value]Val{}, names: map[string]ssa.Value{}}
+	if ifaceKey != "" {
+		r.label = "refines:" + shortName(ifaceKey)
+	}
 	st := e.newEntryState()
 	rt.entry = st
 	tb := e.tb
 	// parameters
 	env := r.newEnv(st, st)
-	for _, p := range fn.Params {
+	var ifaceNames []string
+	if ifaceKey != "" {
+		ifaceNames = e.ifaceParamNames(ifaceKey)
+		if len(ifaceNames) != len(fn.Params)-1 {
+			panic(cerr("interface method %s has %d parameters, implementation %s has %d", ifaceKey, len(ifaceNames), fn, len(fn.Params)-1))
+		}
+	}
+	for pi, p := range fn.Params {
 		v := e.freshVal(p.Type(), "p!"+p.Name())
 		r.vals[p] = v
-		env.vars[p.Name()] = CV{V: v, T: p.Type()}
+		if ifaceKey == "" {
+			env.vars[p.Name()] = CV{V: v, T: p.Type()}
+		} else if pi == 0 {
+			env.vars["this"] = CV{V: r.makeInterface(st, v, p.Type()), T: specTypes["iface"]}
+		} else {
+			env.vars[ifaceNames[pi-1]] = CV{V: v, T: p.Type()}
+		}
 		var pt *Term
 		if s, ok := v.(Scalar); ok && isPointerLike(p.Type()) {
 			pt = s.T
@@ -203,6 +242,10 @@ func (r *FnRun) frameObligations(fin, entry *State, env *Env) {
 		case "obj":
 			for _, lk := range r.typeLeafKeys(m.ObjT) {
 				fieldMods[lk.key] = append(fieldMods[lk.key], tb.Add(m.Addr, tb.BVI(64, lk.off)))
+			}
+		case "heaptype":
+			for _, lk := range r.typeLeafKeys(m.ObjT) {
+				whole[lk.key] = true
 			}
 		case "M":
 			if m.A == nil {
@@ -602,22 +645,29 @@ func (r *FnRun) staticMod(m string, c *Contract, cc *ssa.CallCommon, callee *ssa
 		return []ModTarget{{Kind: "map", Name: strings.TrimSpace(strings.TrimPrefix(m, "map "))}}
 	case strings.HasPrefix(m, "heap "):
 		return []ModTarget{{Kind: "field", Key: strings.TrimSpace(strings.TrimPrefix(m, "heap "))}}
+	case strings.HasPrefix(m, "type "):
+		var from *types.Package
+		if sp := r.e.ssaPkgs[c.Pkg]; sp != nil {
+			from = sp.Pkg
+		}
+		if t := r.e.parseTypeName(from, strings.TrimSpace(strings.TrimPrefix(m, "type "))); t != nil {
+			return []ModTarget{{Kind: "heaptype", ObjT: t}}
+		}
+		return []ModTarget{{Kind: "all"}}
 	}
-	// x.f or *x with x a parameter name
+	// x.f , x.f.g ... or *x with x a parameter name
 	star := strings.HasPrefix(m, "*")
 	ex := mustParse(strings.TrimPrefix(m, "*"))
-	var recvName, field string
-	if star {
-		if ex.Kind != "ident" {
-			return []ModTarget{{Kind: "all"}}
-		}
-		recvName = ex.Name
-	} else {
-		if ex.Kind != "field" || ex.Args[0].Kind != "ident" {
-			return []ModTarget{{Kind: "all"}}
-		}
-		recvName, field = ex.Args[0].Name, ex.Name
+	var path []string
+	cur := ex
+	for cur.Kind == "field" {
+		path = append([]string{cur.Name}, path...)
+		cur = cur.Args[0]
 	}
+	if cur.Kind != "ident" || (star && len(path) > 0) || (!star && len(path) == 0) {
+		return []ModTarget{{Kind: "all"}}
+	}
+	recvName := cur.Name
 	// locate the argument
 	var argV ssa.Value
 	var argT types.Type
@@ -625,9 +675,9 @@ func (r *FnRun) staticMod(m string, c *Contract, cc *ssa.CallCommon, callee *ssa
 		if recvName == "this" {
 			return []ModTarget{{Kind: "all"}}
 		}
-		sig := cc.Method.Type().(*types.Signature)
-		for i := 0; i < sig.Params().Len(); i++ {
-			if sig.Params().At(i).Name() == recvName {
+		names := r.e.ifaceParamNames(ifaceKey(cc.Value.Type()) + "." + cc.Method.Name())
+		for i, n := range names {
+			if n == recvName && i < len(cc.Args) {
 				argV, argT = cc.Args[i], cc.Args[i].Type()
 			}
 		}
@@ -668,17 +718,38 @@ func (r *FnRun) staticMod(m string, c *Contract, cc *ssa.CallCommon, callee *ssa
 		}
 		return []ModTarget{{Kind: "heaptype", ObjT: pt.Elem()}}
 	}
-	su, ok := pt.Elem().Underlying().(*types.Struct)
-	if !ok {
-		return []ModTarget{{Kind: "all"}}
-	}
-	for i := 0; i < su.NumFields(); i++ {
-		if su.Field(i).Name() == field {
-			ft := su.Field(i).Type()
-			if _, isBA := isByteArray(ft); isBA {
-				return []ModTarget{{Kind: "BH"}}
+	// walk the field path; only the first hop can be address-precise
+	curT := pt.Elem()
+	for hop, field := range path {
+		su, ok := curT.Underlying().(*types.Struct)
+		if !ok {
+			return []ModTarget{{Kind: "all"}}
+		}
+		found := false
+		for i := 0; i < su.NumFields(); i++ {
+			if su.Field(i).Name() != field {
+				continue
 			}
-			return []ModTarget{{Kind: "field", Key: fieldKey(pt.Elem(), i), FT: ft, Addr: addr}}
+			found = true
+			ft := su.Field(i).Type()
+			if hop == len(path)-1 {
+				if _, isBA := isByteArray(ft); isBA {
+					return []ModTarget{{Kind: "BH"}}
+				}
+				a := addr
+				if hop > 0 {
+					a = nil
+				}
+				return []ModTarget{{Kind: "field", Key: fieldKey(curT, i), FT: ft, Addr: a}}
+			}
+			if p2, isP := ft.Underlying().(*types.Pointer); isP {
+				curT = p2.Elem()
+			} else {
+				curT = ft
+			}
+		}
+		if !found {
+			return []ModTarget{{Kind: "all"}}
 		}
 	}
 	return []ModTarget{{Kind: "all"}}
